@@ -295,3 +295,34 @@ pub(crate) fn div_rem_unshifted_in_place(
     q_top += overflow as Word;
     q_top
 }
+
+/// Kernel entry points for verification harnesses.
+#[cfg(dashu_verif)]
+pub(crate) mod verif {
+    use super::*;
+
+    /// Scratch memory for kernel `which` (1 = schoolbook, 2 = divide and conquer).
+    pub fn memory_requirement(which: u8, lhs_len: usize, rhs_len: usize) -> Layout {
+        match which {
+            1 => memory::zero_layout(),
+            _ => divide_conquer::memory_requirement_exact(lhs_len, rhs_len),
+        }
+    }
+
+    /// `lhs = [lhs % rhs, lhs / rhs]` through kernel `which`.
+    pub fn div_rem_in_place(
+        which: u8,
+        lhs: &mut [Word],
+        rhs: &[Word],
+        fast_div_rhs_top: FastDivideNormalized2,
+        memory: &mut Memory,
+    ) -> bool {
+        match which {
+            1 => simple::div_rem_in_place(lhs, rhs, fast_div_rhs_top),
+            _ => divide_conquer::div_rem_in_place(lhs, rhs, fast_div_rhs_top, memory),
+        }
+    }
+
+    /// THRESHOLD_SIMPLE
+    pub const PARAMS: usize = THRESHOLD_SIMPLE;
+}
